@@ -15,14 +15,16 @@
 (* the process table but its mailbox is closed (the window between a       *)
 (* process task's end and its removal); one outstanding remote call.       *)
 (* Local operations between frames: P2 terminates; the name alpha moves    *)
-(* to P2 while P1 keeps running, or is unregistered.                       *)
+(* to P2 while P1 keeps running, or is unregistered.  A message from the   *)
+(* peer may also make its recipient fail (die_pid / die_name): the process *)
+(* ends while the receiver goes on routing what follows.                   *)
 (***************************************************************************)
 EXTENDS Integers, Sequences, FiniteSets, TLC
 CONSTANT MaxFrames
 Procs == {"P1", "P2"}
 Targets == {"P1", "P2", "D", "N", "S1", "F1", "Z"}
 Names == {"alpha", "ghost"}
-Good == {"send_pid", "send_name", "exit", "monitor_exit", "rpc_reply"}
+Good == {"send_pid", "send_name", "exit", "monitor_exit", "rpc_reply", "die_pid", "die_name"}
 Junk == {"tick", "unknown_control", "generic_control", "undecodable", "wrong_marker", "bad_control", "control_not_tuple", "empty_tuple_control", "truncated_term"}
 Fatal == {"close", "overlong", "close_mid_frame"}
 VARIABLES alive,       \* the receiver task runs
@@ -44,6 +46,13 @@ Frame(kind, tgt) ==
        [] kind = "send_name" ->
             /\ (IF tgt = "alpha" /\ nameOf # "none" THEN Deliver(nameOf, kind) ELSE UNCHANGED delivered)
             /\ UNCHANGED <<alive, registered, live, nameOf, callOpen, callGot>>
+       \* a message on whose handling the recipient fails: it is handled (once) and the process ends there; what the peer sends it afterwards
+       \* finds nobody, whether or not the process has left the tables yet, and everybody else is served as before
+       [] kind = "die_pid" ->
+            /\ Deliver(tgt, "die") /\ live' = live \ {tgt} /\ UNCHANGED <<alive, registered, nameOf, callOpen, callGot>>
+       [] kind = "die_name" ->
+            /\ (IF tgt = "alpha" /\ nameOf \in live THEN Deliver(nameOf, "die") /\ live' = live \ {nameOf} ELSE UNCHANGED <<delivered, live>>)
+            /\ UNCHANGED <<alive, registered, nameOf, callOpen, callGot>>
        [] kind = "rpc_reply" ->
             /\ (IF tgt = "call" /\ callOpen THEN callOpen' = FALSE /\ callGot' = n + 1 ELSE UNCHANGED <<callOpen, callGot>>)
             /\ UNCHANGED <<alive, registered, live, nameOf, delivered>>
@@ -60,6 +69,8 @@ DropName == /\ nameOf # "none" /\ n < MaxFrames /\ nameOf' = "none" /\ hist' = A
 Next == \/ MoveName \/ DropName
         \/ \E k \in {"send_pid", "exit", "monitor_exit"}, t \in Targets : Frame(k, t)
         \/ \E t \in Names : Frame("send_name", t)
+        \/ \E t \in Procs : Frame("die_pid", t)
+        \/ \E t \in Names : Frame("die_name", t)
         \/ \E t \in {"call", "unknown"} : Frame("rpc_reply", t)
         \/ \E k \in Junk \cup Fatal : Frame(k, "-")
         \/ KillP2
